@@ -797,10 +797,16 @@ def program_case(ctx, case):
     ctx.ev()
     fields = [(n, T2._tup(s) if isinstance(s, list) else s)
               for n, s in case['fields']]
+    # the definition is a list of dicts; an entry may declare several
+    # attributes (in dict order) and may be empty.  'groups' says how many
+    # consecutive fields go into each entry (default: one each).
     definition = []
-    for n, sp in fields:
-        t = build_type(sp)
-        definition.append({n: t})
+    groups = list(case.get('groups') or [])
+    k = 0
+    while k < len(fields):
+        g = groups.pop(0) if groups else 1
+        definition.append({n: build_type(sp) for n, sp in fields[k:k + g]})
+        k += g
     cls = type('GeneratedPacket', (Packet,), {
         'id': case['id'], 'definition': definition,
         'packet_name': 'generated'})
@@ -957,12 +963,17 @@ def t_programs(ctx, n):
                       names, st.booleans()).flatmap(mk)
 
     def body(c, t):
-        ver, pid, fields, vals = t
+        (ver, pid, fields, vals), grp = t
         case = {'version': ver, 'id': pid, 'fields': fields,
                 'values': list(vals)}
+        if grp:
+            case['groups'] = grp
+            c.label('program_multi_key_entries')
         program_case(c, case)
         if c.evaluations % 150 == 3:
             c.sample(case, 'program')
+    strat = st.tuples(strat, st.one_of(
+        st.just([]), st.lists(st.integers(0, 3), max_size=6)))
     hyp(ctx, 'programs', strat, body, n)
 
 
